@@ -210,6 +210,10 @@ structure Provider where
   image : Option Str := none
   engine : Option Str := none
   containerId : Option Str := none
+  /-- `get_serializer(obj)` finds a serializer: the lookup is by the EXACT type name of the value
+      (`SERIALIZERS.get(dr.get_name(type(obj)))`, see `serializerFor`); when it finds none,
+      `serialize` calls `None(obj, root=root)` and the TypeError is recorded like any serializer error -/
+  serializable : Bool := true
   /-- the content is ONE `str`, not a list of lines (a command created with split=False); the single
       element of `load` is then that string -/
   unsplit : Bool := false
@@ -294,6 +298,7 @@ def docOf (p : Provider) (rel : Str) : ObjDoc :=
     RawFileProvider.write copies the file without looking at `content`.  A `str` content (unsplit
     command) is not joined. -/
 def writeText (host : Bool) (p : Provider) : Except Fault Str :=
+  if !p.serializable then .error 9 else
   match p.kind, p.load with
   | .raw, .ok ls => .ok (ls.headD [])
   | .raw, .error f => .error f
@@ -303,6 +308,39 @@ def writeText (host : Bool) (p : Provider) : Except Fault Str :=
       -- `len(content) == 0` of the string; `isinstance(content, six.string_types)`: written as it is
       (if host && (ls.headD []).isEmpty then .error 0 else .ok (ls.headD []))
     else if host && ls.isEmpty then .error 0 else .ok (joinLines ls)
+
+/-! ## Value types: which serializer the writer finds, which deserializer the reader finds -/
+
+/-- the type of a value in the broker, by its fully qualified name: a stock provider class, a user
+    subclass (number n), or one of the two classes a LOADED archive's providers have -/
+inductive TName
+  | stock (k : Kind)
+  | user (n : Nat)
+  | serializedText
+  | serializedRaw
+  deriving DecidableEq, Repr
+
+/-- SERIALIZERS / DESERIALIZERS: partial functions on type names (`some k` = the registered function
+    behaves like the stock one of kind k) -/
+structure Registry where
+  ser : TName → Option Kind
+  de : TName → Option Kind
+
+/-- what `insights.core.spec_factory` registers: the six stock classes, in both tables; nothing for
+    SerializedOutputProvider / SerializedRawOutputProvider -/
+def stockRegistry : Registry :=
+  { ser := fun | .stock k => some k | _ => none
+    de := fun | .stock k => some k | _ => none }
+
+/-- `@serializer(T)` and `@deserializer(T)` for a user class T, both -/
+def Registry.addPair (r : Registry) (n : Nat) (k : Kind) : Registry :=
+  { ser := fun t => if t = .user n then some k else r.ser t
+    de := fun t => if t = .user n then some k else r.de t }
+
+/-- `get_serializer(obj)`: exact-name lookup -/
+def serializerFor (r : Registry) (t : TName) : Option Kind := r.ser t
+/-- `DESERIALIZERS.get(data["type"])` -/
+def deserializerFor (r : Registry) (t : TName) : Option Kind := r.de t
 
 /-! ## File system of the archive's data directory -/
 
@@ -366,6 +404,51 @@ def containsStr (pat : Str) : Str → Bool
     one of the patterns; the per-pattern line budget `max_match` is not modelled) -/
 def postFilter (pats : List Str) (ls : List Str) : List Str :=
   if pats.isEmpty then ls else ls.filter (fun l => pats.any (fun p => containsStr p l))
+
+/-- `serialize(obj, root)`: look the serializer up by the value's type name, record THAT name as
+    "type" (the stock serializers never look at the class again) -/
+def serializeTyped (r : Registry) (host : Bool) (root : Str) (fs : FS) (t : TName) (p : Provider) :
+    Except Fault (TName × ResDoc × FS) :=
+  match serializerFor r t with
+  | none => .error 9
+  | some k =>
+    match serializeOne host root fs { p with kind := k, serializable := true } with
+    | .ok (d, fs') => .ok (t, d, fs')
+    | .error f => .error f
+
+/-- `deserialize(data, root, ...)`: "Unrecognized type" (= `none`) when the recorded name has no deserializer -/
+def deserializeTyped (r : Registry) (root : Str) (fs : FS) (t : TName) (d : ResDoc) : Option Loaded :=
+  match deserializerFor r t with
+  | none => none
+  | some k => deserialize root fs { d with type := k }
+
+/-! ## Raw files behind symbolic links -/
+
+inductive Node
+  | file (bytes : Str)
+  | link (target : Str)      -- the node the link names (relative / absolute spelling already resolved to a key)
+  deriving DecidableEq, Repr
+
+abbrev NFS := List (Str × Node)
+
+def NFS.get : NFS → Str → Option Node
+  | [], _ => none
+  | (k, n) :: rest, p => if k = p then some n else NFS.get rest p
+
+/-- the bytes `open(path, "rb")` / `cp path dst` see: links are followed (`fuel` = the kernel's limit on
+    the number of links, ELOOP beyond) -/
+def resolveBytes (src : NFS) : Nat → Str → Option Str
+  | 0, _ => none
+  | fuel + 1, p =>
+    match src.get p with
+    | none => none
+    | some (.file b) => some b
+    | some (.link t) => resolveBytes src fuel t
+
+/-- RawFileProvider.write: `cp <path> <dst>` — the CONTENT the path resolves to is copied into a new
+    regular file (cp without the -P or -d option follows links given on the command line) -/
+def persistRaw (src : NFS) (fuel : Nat) (arch : NFS) (path dst : Str) : Option NFS :=
+  (resolveBytes src fuel path).map (fun b => (dst, .file b) :: arch)
 
 /-! ## marshal / dehydrate -/
 
